@@ -328,11 +328,11 @@ theorem user_succ (n : Nat) (ih : AllSpec n) (name : String) (k : Nat) (s s' : S
 theorem exec_succ (n : Nat) (ih : AllSpec n) (b : Base) (s s' : St) (top : Act) (rest : List Act) (i : Instr) (hw : WF s)
     (hr : Running b s top rest) (hf : (fnOf s s.curfunc).code[s.pc.toNat]? = some i)
     (hex : (exec (n + 1) i).run s = (.ok (), s')) :
-    WF s' ∧ TExt s s' ∧ Live b s' ∧ s'.suspended = s.suspended := by
-  have simple : isCall i = false → WF s' ∧ TExt s s' ∧ Live b s' ∧ s'.suspended = s.suspended := by
+    WF s' ∧ TExt s s' ∧ Next b s' top rest ∧ s'.suspended = s.suspended := by
+  have simple : isCall i = false → WF s' ∧ TExt s s' ∧ Next b s' top rest ∧ s'.suspended = s.suspended := by
     intro hs
     have r := exec_simple_ok n b s s' top rest i hw hr hf hs hex
-    exact ⟨r.wf, r.ext, Or.inl ⟨top, rest, r.run⟩, r.susp⟩
+    exact ⟨r.wf, r.ext, Or.inl r.run, r.susp⟩
   cases i with
   | callArr k => exact exec_callArr_ok n ih b s s' top rest k hw hr hf hex
   | ret => exact exec_ret_ok n b s s' top rest hw hr hf hex
